@@ -120,13 +120,17 @@ func (d *wrappedSlidingWindowDetector) Check(seq uint64) (func() bool, bool) {
 
 	return func() bool {
 		latest := false
+		bit := diff
 		if diff < 0 {
 			// Update the head of the window.
 			d.mask.Lsh(uint(-diff))
 			d.latestSeq = seq
 			latest = true
+			bit = 0
 		}
-		d.mask.SetBit(uint(d.latestSeq - seq))
+		// diff is the distance behind latestSeq modulo the sequence space;
+		// latestSeq - seq is not when seq is behind across the wrap.
+		d.mask.SetBit(uint(bit))
 
 		return latest
 	}, true
